@@ -195,4 +195,19 @@ writes its own failure response when it refuses -/
 structure CertgenExt where
   checkAuth : Nat → authInfo × Option Err
 
+/-! ### cmd/keymasterd `consumeLoginChallenge` -/
+
+/-- `localUserData`: the pending challenge of a user; the two challenge pointers are compared by identity (numbers
+here), the expiry is not read by this function -/
+structure localUserData where
+  U2fAuthChallenge : Nat
+  WebAuthnChallenge : Nat
+  ExpiresAt : Nat
+deriving DecidableEq, Repr
+
+inductive ChalEffect
+  | lock | unlock                 -- state.Mutex
+  | delete (user : Str)           -- delete(state.localAuthData, username)
+deriving DecidableEq, Repr
+
 end KM.GoTypes
